@@ -69,3 +69,9 @@ Proof.
     + rewrite in_app_iff. simpl. intros [H|[H|[]]]; [auto | subst; apply Hx; left; reflexivity].
     + apply IH; [assumption | intro H; apply Hx; right; exact H].
 Qed.
+
+Lemma In_firstn {A} n (l : list A) x : In x (firstn n l) -> In x l.
+Proof.
+  revert n; induction l as [|a t IH]; intros [|n] H; simpl in *; try tauto.
+  destruct H; [left | right]; eauto.
+Qed.
